@@ -14,8 +14,8 @@ package maintenance
 // the version table is untouched; on any error nothing was executed.
 //@ func getDBExec$1 [C18,C19]
 //@   flag modular
-//@   modifies dbN, dbStmt, dbVer
-//@   ensures dbVer == old(dbVer)
+//@   modifies dbN, dbStmt, dbVer, dbSet
+//@   ensures dbVer == old(dbVer) && dbSet == old(dbSet)
 //@   ensures failed: result != nil ==> dbN == old(dbN) && dbStmt == old(dbStmt)
 //@   ensures one: result == nil ==> dbN == old(dbN) + 1
 //@   ensures prefix: forall j int :: 0 <= j && j < old(dbN) ==> dbStmt[j] == old(dbStmt)[j]
@@ -42,4 +42,89 @@ package maintenance
 //@     invariant i == ver ==> dbVer == old(dbVer)
 //@     invariant i > ver ==> dbVer[k] == max(old(dbVer)[k], i)
 //@     invariant forall s int :: s != k ==> dbVer[s] == old(dbVer)[s]
-//@     modifies dbN, dbStmt, dbVer
+//@     modifies dbN, dbStmt, dbVer, dbSet
+
+// ---------------------------------------------------------------- retention (rotate.go)
+
+// Ghost: the setting names already claimed by a group during this run of Rotate.
+// Two groups recording their marker under the same name overwrite each other
+// and are both re-applied on every start.
+//@ ghost var settingUsed Array[Str,Bool]
+
+// Reading a setting back returns what was recorded last (assumed: not verified
+// against the SELECT / Scan code).
+//@ func getSetting
+//@   modifies nothing
+//@   ensures result1 == nil ==> result0 == dbSet[name]
+//@   ensures result1 != nil ==> result0 == ""
+
+//@ func putSetting [C19]
+//@   modifies dbN, dbStmt, dbVer, dbSet
+//@   ensures recorded: result == nil ==> dbSet == upd(old(dbSet), name, value) && dbN == old(dbN) + 1
+//@   ensures failed: result != nil ==> dbSet == old(dbSet) && dbN == old(dbN)
+
+// TTL group: if the recorded value equals the desired one nothing is executed;
+// otherwise every table of the group is altered (two statements each) and only
+// then the value is recorded; on any failure the record is unchanged, so the
+// next run repeats the group.
+//@ func rotateTables [C19]
+//@   requires fresh-name: !settingUsed[settingName]
+//@   ghostset settingUsed = upd(settingUsed, settingName, true)
+//@   modifies dbN, dbStmt, dbVer, dbSet, settingUsed
+//@   check no-op: result == nil && old(dbSet)[settingName] == rotateTTLStr ==> dbN == old(dbN) && dbSet == old(dbSet)
+//@   check applied: result == nil && old(dbSet)[settingName] != rotateTTLStr ==> dbN == old(dbN) + 2 * len(tables) + 1 && dbSet == upd(old(dbSet), settingName, rotateTTLStr)
+//@   check converged: result == nil ==> dbSet[settingName] == rotateTTLStr
+//@   ensures failed: result != nil ==> dbSet == old(dbSet)
+//@   ensures others: forall n string :: n != settingName ==> dbSet[n] == old(dbSet)[n]
+//@   loop 1:
+//@     modifies nothing
+//@   loop 2:
+//@     invariant dbN == old(dbN) + 2 * (rangeindex + 1) && dbSet == old(dbSet) && rangeindex + 1 <= len(tables)
+//@     modifies dbN, dbStmt, dbVer, dbSet
+
+// Storage-policy group: same protocol, one statement per table.
+//@ func storagePolicyUpdate [C19]
+//@   requires fresh-name: !settingUsed[setting]
+//@   ghostset settingUsed = upd(settingUsed, setting, true)
+//@   modifies dbN, dbStmt, dbVer, dbSet, settingUsed
+//@   ensures no-op: result == nil && (storagePolicy == "" || old(dbSet)[setting] == storagePolicy) ==> dbN == old(dbN) && dbSet == old(dbSet)
+//@   ensures applied: result == nil && storagePolicy != "" && old(dbSet)[setting] != storagePolicy ==> dbN == old(dbN) + len(tables) + 1 && dbSet == upd(old(dbSet), setting, storagePolicy)
+//@   ensures failed: result != nil ==> dbSet == old(dbSet)
+//@   ensures others: forall n string :: n != setting ==> dbSet[n] == old(dbSet)[n]
+//@   loop 1:
+//@     invariant dbN == old(dbN) + (rangeindex + 1) && dbSet == old(dbSet) && rangeindex + 1 <= len(tables)
+//@     modifies dbN, dbStmt, dbVer, dbSet
+
+// One run: every group claims its own setting name.
+//@ func Rotate [C19]
+//@   requires settingUsed == constmap("Str", false)
+//@   replay:
+//@     import "context"
+//@     import "strings"
+//@     import "time"
+//@     import "github.com/ClickHouse/clickhouse-go/v2"
+//@     import "github.com/ClickHouse/clickhouse-go/v2/lib/driver"
+//@     import "github.com/metrico/qryn/ctrl/logger"
+//@     go: conn := &replayConn{settings: map[uint32]string{}}
+//@     go: var alters [3]int
+//@     go: for run := 0; run < 3; run++ {
+//@     go:   conn.execs = nil
+//@     go:   if err := Rotate(conn, "", false, []RotatePolicy{{TTL: 48 * time.Hour, MoveTo: "cold"}}, 7, "hot_cold", logger.Logger); err != nil { panic(err) }
+//@     go:   for _, q := range conn.execs { if strings.HasPrefix(q, "ALTER") { alters[run]++ } }
+//@     go: }
+//@     go: if alters[1] != 0 || alters[2] != 0 { confirm(fmt.Sprintf("unchanged configuration: run 1 issued %d ALTER, run 2 %d, run 3 %d (never reaches zero)", alters[0], alters[1], alters[2])) }
+//@     top: type replayConn struct { clickhouse.Conn; settings map[uint32]string; execs []string }
+//@     top: func (c *replayConn) Exec(ctx context.Context, q string, args ...any) error {
+//@     top:   c.execs = append(c.execs, q)
+//@     top:   if strings.HasPrefix(q, "INSERT INTO settings") { c.settings[args[0].(uint32)] = args[3].(string) }
+//@     top:   return nil
+//@     top: }
+//@     top: type replayRows struct { driver.Rows; vals []string; i int }
+//@     top: func (r *replayRows) Next() bool { r.i++; return r.i <= len(r.vals) }
+//@     top: func (r *replayRows) Scan(dest ...any) error { *(dest[0].(*string)) = r.vals[r.i-1]; return nil }
+//@     top: func (r *replayRows) Close() error { return nil }
+//@     top: func (c *replayConn) Query(ctx context.Context, q string, args ...any) (driver.Rows, error) {
+//@     top:   if v, ok := c.settings[args[0].(uint32)]; ok { return &replayRows{vals: []string{v}}, nil }
+//@     top:   return &replayRows{}, nil
+//@     top: }
+//@   end
